@@ -13,6 +13,9 @@
 //	                                module, to a package-level variable of the module and to a local variable
 //	                                captured by a function literal in vsched.RN / vsched.WN (happens-before
 //	                                race check only, no scheduling point)
+//	yieldcalls <pkgdir> <Iface> <writeMethod,...>   a scheduling point before every method call on a value whose
+//	                                static type is interface <Iface> declared in <pkgdir> (in every instrumented
+//	                                package): listed methods are writes of the called object, the others reads
 //	add <pkgdir> <harness-relative file>   add a file (tag verif) to a repo package
 //	shims                           map harness/zzverif/* into the repo module (implied by instrument)
 //
@@ -50,6 +53,7 @@ type spec struct {
 	lruPkgs    map[string]bool
 	watch      map[string]map[string]bool // pkgdir -> "Type.field"
 	watchAll   map[string]bool
+	yieldIface map[string]map[string]bool // "<import path>.<Iface>" -> write methods
 	add        [][2]string
 }
 
@@ -63,7 +67,7 @@ func readSpec(path string) *spec {
 	if err != nil {
 		die("%v", err)
 	}
-	s := &spec{instrument: map[string]bool{}, timePkgs: map[string]bool{}, lruPkgs: map[string]bool{}, watch: map[string]map[string]bool{}, watchAll: map[string]bool{}}
+	s := &spec{instrument: map[string]bool{}, timePkgs: map[string]bool{}, lruPkgs: map[string]bool{}, watch: map[string]map[string]bool{}, watchAll: map[string]bool{}, yieldIface: map[string]map[string]bool{}}
 	for _, ln := range strings.Split(string(b), "\n") {
 		if i := strings.IndexByte(ln, '#'); i >= 0 {
 			ln = ln[:i]
@@ -97,6 +101,16 @@ func readSpec(path string) *spec {
 			for _, w := range f[2:] {
 				s.watch[f[1]][w] = true
 			}
+			s.instrument[f[1]] = true
+		case "yieldcalls":
+			if len(f) != 4 {
+				die("bad yieldcalls line %q", ln)
+			}
+			w := map[string]bool{}
+			for _, m := range strings.Split(f[3], ",") {
+				w[m] = true
+			}
+			s.yieldIface[modPath+"/"+f[1]+"."+f[2]] = w
 			s.instrument[f[1]] = true
 		case "watchall":
 			for _, p := range f[1:] {
@@ -351,6 +365,9 @@ func (rw *rewriter) rewriteFile(f *ast.File) bool {
 				changed = true
 			}
 		case *ast.CallExpr:
+			if len(rw.sp.yieldIface) > 0 && rw.yieldCall(n) {
+				changed = true
+			}
 			if id, ok := n.Fun.(*ast.Ident); ok && id.Name == "close" && len(n.Args) == 1 {
 				if _, isBuiltin := rw.info.Uses[id].(*types.Builtin); isBuiltin || rw.info.Uses[id] == nil {
 					c.Replace(call("vsched", "Close", n.Args[0]))
@@ -912,4 +929,35 @@ func (rw *rewriter) autoIdent(c *astutil.Cursor, id *ast.Ident) bool {
 		return false
 	}
 	return rw.wrapAuto(c, id, k, name)
+}
+
+// yieldCall rewrites  x.M(args)  to  vsched.Pt(x, "Iface.M", write).M(args)  when the static type of x is a
+// listed interface: a scheduling point on the called object between the evaluation of x and the call.
+func (rw *rewriter) yieldCall(n *ast.CallExpr) bool {
+	se, ok := n.Fun.(*ast.SelectorExpr)
+	if !ok {
+		return false
+	}
+	s := rw.info.Selections[se]
+	if s == nil || s.Kind() != types.MethodVal {
+		return false
+	}
+	named, ok := s.Recv().(*types.Named)
+	if !ok || named.Obj().Pkg() == nil {
+		return false
+	}
+	if _, isIface := named.Underlying().(*types.Interface); !isIface {
+		return false
+	}
+	writes, ok := rw.sp.yieldIface[named.Obj().Pkg().Path()+"."+named.Obj().Name()]
+	if !ok {
+		return false
+	}
+	w := "false"
+	if writes[se.Sel.Name] {
+		w = "true"
+	}
+	rw.needs["vsched"] = true
+	se.X = call("vsched", "Pt", se.X, strLit(named.Obj().Name()+"."+se.Sel.Name), ast.NewIdent(w))
+	return true
 }
